@@ -419,10 +419,14 @@ class IntV(Val):
 
 
 class BoolV(Val):
-    __slots__ = ("val", "origin", "deps", "term", "bit")
+    __slots__ = ("val", "origin", "deps", "term", "bit", "tg", "fg")
     kind = "bool"
 
-    def __init__(self, val=None, origin=None, deps=frozenset(), term=None, bit=None):
+    def __init__(self, val=None, origin=None, deps=frozenset(), term=None, bit=None, tg=None, fg=None):
+        # tg / fg: facts (guard dicts like those of enum variants) that hold whenever this value is true / false - set when
+        # a flag is merged from paths of which only some can yield that truth value (`a && b` returned by a helper)
+        self.tg = tg
+        self.fg = fg
         self.val = val
         self.origin = origin  # ('cmp', op, a, b) | ('not', BoolV) | ('and'|'or', (BoolV..))
         self.term = term
@@ -881,4 +885,37 @@ def join_guard(ga, gb):
     pa, pb = ga.get("pc", frozenset()), gb.get("pc", frozenset())
     if pa & pb:
         g["pc"] = pa & pb
+    ta, tb = ga.get("then", ()), gb.get("then", ())
+    if ta and tb:
+        th = tuple(x for x in ta if any(x[0] is y[0] and x[1] == y[1] for y in tb))
+        if th:
+            g["then"] = th
+    return g
+
+
+def merge_guard(ga, gb):
+    """both guards hold"""
+    if not ga:
+        return dict(gb or {})
+    if not gb:
+        return dict(ga)
+    g = dict(ga)
+    if gb.get("kb"):
+        kk = dict(g.get("kb", {}))
+        kk.update(gb["kb"])
+        g["kb"] = kk
+    if gb.get("cons"):
+        cc = dict(g.get("cons", {}))
+        for k, (lo, hi) in gb["cons"].items():
+            if k in cc:
+                cc[k] = (max(lo, cc[k][0]), min(hi, cc[k][1]))
+            else:
+                cc[k] = (lo, hi)
+        g["cons"] = cc
+    if gb.get("pc"):
+        g["pc"] = frozenset(g.get("pc", frozenset())) | gb["pc"]
+    if gb.get("deps"):
+        g["deps"] = frozenset(g.get("deps", frozenset())) | frozenset(gb["deps"])
+    if gb.get("then"):
+        g["then"] = tuple(g.get("then", ())) + tuple(gb["then"])
     return g
